@@ -48,7 +48,12 @@ def c10_scenarios(tier, seed):
         threads = rnd.choice([1, 1, 2, 3, 4, 8])
         n = rnd.choice([3, 10, 30]) if tier == "quick" else rnd.choice([3, 10, 60, 300])
         scripts = [[rand_op(rnd) for _ in range(n)] for _ in range(threads)]
-        scs.append({"kind": "alloc", "id": f"r{j}", "scripts": scripts,
+        sc_unit = {}
+        if rnd.random() < 0.35:
+            # byte sizes up to 2^40 and beyond: sizes in units of 2^20 / 2^30 bytes
+            sc_unit = {"unit": rnd.choice([1 << 20, 1 << 30, 1 << 32])}
+            scripts = [[dict(o, size=o.get("size", 0) % 1500, new=o.get("new", 0) % 1500) for o in sc_] for sc_ in scripts]
+        scs.append({"kind": "alloc", "id": f"r{j}", "scripts": scripts, **sc_unit,
                     "schedule": {"source": "random", "seed": rnd.randrange(1 << 30), "switch": rnd.choice([100, 500, 1000])}})
     return scs
 
@@ -132,7 +137,7 @@ def negative_control(res, prop, proj):
 def run(prop, tier, seed):
     res = V.Result(prop, tier, seed)
     if prop == "C10":
-        res.assumptions = ["sizes and sums below 2^31 (TLC integers); larger sizes are outside this check",
+        res.assumptions = ["sizes below 2^31 bytes directly, and up to 1500 * 2^32 bytes as exact multiples of a unit (2^20, 2^30, 2^32) logged in that unit; arbitrary huge non-multiples are outside this check",
                            "operations are issued as direct GlobalAlloc calls on a harness-owned AllocProfiler<Mock>, so only scripted operations reach the tally"]
         for cfg in (["Alloc_q", "Alloc_q2"] if tier == "quick" else ["Alloc_q", "Alloc_q2", "Alloc_t"]):
             r = V.tlc_mc("MC_Alloc", cfg, workers=8, coverage=False, timeout=3000)
